@@ -2,7 +2,8 @@
 
 Legs (DESIGN 3.3):
   model <-> code   tools/harness/literals_harness.c (#includes the snapshot's unicode.c, tokenize.c, preprocess.c ...)
-                   against `drv_c11 literals` (Gen/LiteralsGen.lean regenerated from the snapshot + Model/Literals, Model/Text)
+                   against `drv_c11 literals` (Gen/LiteralsGen.lean, Gen/LitReadersGen.lean, Gen/PpNumGen.lean regenerated from the
+                   snapshot + Model/Literals, Model/Text, Model/PpNumber)
   code  <-> oracle the same harness outputs against reference implementations written here from RFC 3629 / RFC 2781 /
                    C11 6.4.4.1p5 / 6.4.4.4 (python), and compiled programs: chibicc vs gcc -std=c11 (value, type, sizeof, bytes)
   model  =  spec   theorems of lean/ChibiVerif/Props/C11.lean
@@ -20,22 +21,27 @@ TRUSTED_BASE = [
     'Lean 4.33.0 kernel; axioms admitted: propext, Classical.choice, Quot.sound (audited per theorem on every run); '
     '`decide +kernel` is used for facts over the 256 byte values',
     'translator tools/extract/literals.py + cmini.py (small typed C expression/statement front end) + cursor.py (symbolic execution of '
-    'cursor functions and of in-place rewriting loops; clang-14 AST for the values of the character constants in read_escaped_char). '
-    'Translated whole: encode_utf8, decode_utf8, is_ident1/2 tables, UTF-16 surrogate arithmetic, convert_pp_int base/suffix/type '
-    'ladders, convert_pp_number suffix table, literal prefix dispatch of tokenize(), type.c sizes, from_hex, read_escaped_char, '
-    'read_universal_char, string_literal_end, canonicalize_newline, remove_backslash_newline, convert_universal_chars (the last three '
-    'with exact array semantics).  Mitigated by the differential run of every translated function against the compiled C function '
-    '(exhaustive over all 0x110000 code points in the thorough tier)',
-    'hand models lean/ChibiVerif/Model/Literals.lean (string/char reader loops, convert_pp_int driver, strtoul digit loop, pp-number scan, '
-    'join_adjacent_string_literals) and Model/Text.lean (BOM test, read_file final newline, order of the phases); their source text is '
-    'pinned by the translator and they are tied by in-process differential execution (testing).  The hand-written from_hex, '
-    'read_escaped_char, read_universal_char, string_literal_end, canonicalize_newline, remove_backslash_newline, '
-    'convert_universal_chars that the theorems are stated about are *proved equal* to the translated functions '
-    '(C11_translated_readers, C11_translated_phases)',
+    'cursor functions, of in-place rewriting loops, of loop-free functions with if-ladders and of token scans; clang-14 AST for the values '
+    'of the character constants in read_escaped_char and for the body of tokenize_file; clang-14 -E for the value and type of limit macros). '
+    'Translated whole: encode_utf8, decode_utf8, is_ident1/2 tables, UTF-16 surrogate arithmetic, convert_pp_int (prefix ladder, the strtoul '
+    'call as a parameter, suffix ladder, whole-token test, type ladder, result), the pp-number arm of tokenize() (start test and scan loop), '
+    'tokenize_file (BOM test, order of the phase calls), convert_pp_number suffix table, literal prefix dispatch of tokenize(), type.c sizes, '
+    'from_hex, read_escaped_char, read_universal_char, string_literal_end, the three string readers, read_char_literal, '
+    'canonicalize_newline, remove_backslash_newline, convert_universal_chars (the last three with exact array semantics).  Mitigated by '
+    'the differential run of every translated function against the compiled C function (exhaustive over all 0x110000 code points in the '
+    'thorough tier)',
+    'hand models lean/ChibiVerif/Model/Literals.lean (join_adjacent_string_literals / getStringKind, tokenize_string_literal: source text '
+    'pinned; the order of the literal arms of tokenize(); that convert_pp_int gets the token inside its text) and Model/Text.lean (read_file: '
+    'final newline), tied by in-process differential execution (testing).  The hand-written reader functions, phase loops, convert_pp_int, '
+    'pp-number scan and phase composition that the theorems are stated about are *proved equal* to the translated functions '
+    '(C11_translated_readers, C11_translated_literal_readers, C11_translated_phases, C11_translated_int, C11_translated_ppnumber, C11_phase_order)',
+    'libc strtoul: a parameter of the translated convert_pp_int; the integer-constant theorems assume the contract StrtoulSpec (value of a '
+    'digit run of the base, saturation to ULONG_MAX, end pointer), which is proved of the Lean model strtoulC (Model/PpNumber.lean) and '
+    'tested on the real libc directly (`stl` operations against the model and against a python statement of the contract)',
     'Spec/LiteralsSpec.lean (my reading of C11 5.1.1.2, 6.4.4.1p5, 6.4.4.2p4, 6.4.4.4, 6.4.5, Annex D, RFC 3629, RFC 2781), validated against '
     'gcc 12 -std=c11 through compiled programs and against the python reference codecs in this file',
-    'libc strtoul/strtold/strtof/strtod (values of the digit sequences; floating constants are compared with gcc bit for bit but not '
-    'modelled), isxdigit in the C locale',
+    'libc strtold/strtof/strtod (floating constants are compared with gcc bit for bit but not modelled), isxdigit / isdigit / isalnum / '
+    'tolower (strncasecmp) / strchr in the C locale (stated as Lean definitions in the generated files)',
     'identification long long = long (type.c has one 64-bit integer type per signedness): types are compared modulo it',
 ]
 ASSUMPTIONS = ['LP64, char signed, wchar_t = int, char16_t = unsigned short, char32_t = unsigned int (psABI x86-64)',
@@ -315,8 +321,139 @@ def leg_int(ctx, corr):
             return {'what': f'integer constant {sp} does not get the value/type of C11 6.4.4.1p5', 'expected': want + f' ({t})'}
     run_both(ctx, corr, ops, 'convert_pp_int', lambda op, li: True, oracle)
     # spellings that are not integer constants: model <-> code only
-    junk = ['1.5', '1e5', '0x1p3', '1f', '1lul', '1uu', '0x', '08', '1lL', '1Ll', '0b2', '0xg', '1_0', '12ab', '0b', '1llu8', '0x1.8p1', '.5', '1e+5']
+    junk = ['1.5', '1e5', '0x1p3', '1f', '1lul', '1uu', '0x', '08', '1lL', '1Ll', '0b2', '0xg', '1_0', '12ab', '0b', '1llu8', '0x1.8p1', '.5', '1e+5',
+            # libc strtoul accepts a 0x prefix of its own in base 16 (after the one convert_pp_int skipped); saturation on overflow
+            '0x0x1f', '0X0x1', '0x0X1fu', '0x0xg', '0x0x', '0x0xUL', '0b0b1', '0b0x1', '00x1', '0x00x1', '0b1x', '0x1x', '0xx1', '0x0b1',
+            '99999999999999999999', '99999999999999999999u', '0xfffffffffffffffff', '18446744073709551616ul', '07777777777777777777777777',
+            '0b' + '1' * 65, '1.', '1..', '0e', '0x1e+1', '1e+', '0xe+1', '0b1e', '09', '0a', '1LLL', '1uLl', '1ulu', '0u8', 'x1', '1 ']
     run_both(ctx, corr, [f'int {j.encode().hex()}' for j in junk], 'convert_pp_int_reject')
+    # the token inside its text (convert_pp_int reads p[2], the suffix bytes and strtoul's digits beyond a short token)
+    rng = ctx.rng
+    ops, meta2 = [], {}
+    for base, suf, v, sp in rng.sample(cases, min(len(cases), 400 if not ctx.thorough else 6000)) + [(0, '', 0, j) for j in junk[:-2]]:
+        pre = rng.choice(['', ' ', 'x = ', '(', '1+', 'ab '])
+        post = rng.choice(['', ' ', ';', ')', '+1', ' u', ',', '-', ']', ' 0x1', '\n', '_', '$', '"', '..'])
+        if post[:1] == '.' or (post[:1] in '+-' and sp[-1:] in 'eEpP'):
+            post = ' ' + post                                # the byte after a pp-number token is never one the scan would have taken
+        op = f'inta {len(pre)} {len(sp)} {hexs((pre + sp + post).encode())}'
+        ops.append(op)
+        if base:
+            meta2[op] = (base, suf, v, sp)
+
+    def oracle2(op, li):
+        if op not in meta2:
+            return None
+        base, suf, v, sp = meta2[op]
+        t = ref_int_type(base, suf, v)
+        if t is None:
+            return None
+        want = f'inta {v:x} {COLLAPSE.get(t, t)}'
+        if li != want:
+            return {'what': f'integer constant {sp} (inside a text) does not get the value/type of C11 6.4.4.1p5', 'expected': want + f' ({t})'}
+    run_both(ctx, corr, ops, 'convert_pp_int_in_context', lambda op, li: li != 'inta no', oracle2)
+
+def ref_strtoul(t, base):
+    """C11 7.22.1.4 for a subject sequence without white space and sign, as far as the contract StrtoulSpec goes: a non-empty run of
+    digits of the base followed by a byte that is not one -> (value saturated to ULONG_MAX, end); None = outside the contract"""
+    digs = '0123456789abcdefghijklmnopqrstuvwxyz'[:base]
+    n = 0
+    while n < len(t) and t[n].lower() in digs:
+        n += 1
+    if n == 0 or base > 16 or (base == 16 and t[:2].lower() == '0x'):
+        return None
+    return min(int(t[:n], base), (1 << 64) - 1), n
+
+def leg_strtoul(ctx, corr):
+    """libc strtoul (the function convert_pp_int calls) against the Lean model `strtoulC`, and against the contract `StrtoulSpec`"""
+    rng = ctx.rng
+    ops, expect = [], {}
+    fixed = ['0', '1', '0x', '0X', '0x1', '0xg', '0X1fz', '0x0x1', '0b1', '0b', 'x1', 'zz', '.5', '0_', '18446744073709551615', '18446744073709551616',
+             'ffffffffffffffff', '10000000000000000', '1777777777777777777777', '2000000000000000000000', '1' * 64, '1' * 65, '0x' + 'f' * 17,
+             '7fffffffffffffff', '8000000000000000', '9u', '9U', '1l', '0xul', 'g', 'G1', '1g', 'z', '00', '0x0', '0xx', '0X0X1', '1e+5', '1.5']
+    for t in fixed:
+        for base in (2, 8, 10, 16, 3, 7, 36):
+            ops.append((base, t))
+    for _ in range(400 if not ctx.thorough else 10000):
+        base = rng.choice([2, 8, 10, 16, 16, 10, 3, 36])
+        digs = '0123456789abcdefghijklmnopqrstuvwxyz'
+        n = rng.choice([1, 2, 3, 8, 16, 19, 20, 21, 22, 23, 64, 65, 66])
+        body = ''.join(rng.choice(digs[:base] if rng.random() < 0.9 else digs) for _ in range(n))
+        if rng.random() < 0.3:
+            body = body.upper()
+        pre = rng.choice(['', '', '', '0x', '0X', '0', '0b'])
+        tail = rng.choice(['', 'u', 'UL', 'll', ' ', ';', 'x1', 'g', '.5', '+1', '_'])
+        ops.append((base, pre + body + tail))
+    lines = []
+    for base, t in ops:
+        if not t or t[0] in ' \t\n\v\f\r+-':
+            continue                                           # white space / sign: not modelled (never reached from convert_pp_int)
+        op = f'stl {base} {hexs(t.encode())}'
+        lines.append(op)
+        r = ref_strtoul(t, base)
+        if r is not None:
+            expect[op] = f'stl {r[0]:x} {r[1]}'
+
+    def oracle(op, li):
+        w = expect.get(op)
+        if w is not None and li != w:
+            return {'what': 'libc strtoul does not satisfy the contract the integer-constant theorems assume (value of the digit run, saturation, '
+                            'end after the last digit)', 'expected': w}
+    run_both(ctx, corr, lines, 'strtoul', lambda op, li: op in expect, oracle)
+
+def ref_ppnumber(t, s):
+    """C11 6.4.8 with identifier-nondigit = the Latin letters: the longest prefix of t[s:] that the grammar derives (all derivations, no
+    greedy choice); None = no pp-number starts here"""
+    digit = lambda k: k < len(t) and 48 <= t[k] <= 57
+    ends = set()
+    if digit(s):
+        ends.add(s + 1)
+    if s < len(t) and t[s] == 46 and digit(s + 1):
+        ends.add(s + 2)
+    todo = list(ends)
+    while todo:
+        k = todo.pop()
+        nxt = []
+        if k < len(t) and (digit(k) or 65 <= t[k] <= 90 or 97 <= t[k] <= 122 or t[k] == 46):
+            nxt.append(k + 1)
+        if k + 1 < len(t) and t[k] in b'eEpP' and t[k + 1] in b'+-':
+            nxt.append(k + 2)
+        for n in nxt:
+            if n not in ends:
+                ends.add(n); todo.append(n)
+    return max(ends) if ends else None
+
+def leg_ppnumber(ctx, corr):
+    """the pp-number arm of tokenize() (translated start test and scan loop) against the real tokenizer and against the grammar of 6.4.8"""
+    rng = ctx.rng
+    ops, expect = [], {}
+    alpha = [b'0', b'1', b'9', b'7', b'e', b'E', b'p', b'P', b'+', b'-', b'.', b'x', b'X', b'a', b'f', b'z', b'L', b'u', b'_', b'$', b' ', b';',
+             b'\xc3\xa9', b'e+', b'E-', b'p+', b'P-', b'..', b'e', b'+', b'-']
+    fixed = [b'1', b'.5', b'.', b'..5', b'1e+5', b'1e+', b'1e', b'0x1p-3L', b'1..2', b'12ab;', b'1e5e+3', b'1_0', b'1$', b'1\xc3\xa9', b'1+2', b'1e+-2',
+             b'1p+q-r', b'0xe+1', b'1.e+.e-', b'1E+5e-3.P+', b'.e+5', b'1 2', b'9', b'.9e', b'1e+e+e+', b'1ee+', b'1+', b'1.', b'a1', b'_1', b' 1', b'']
+    for t in fixed:
+        ops.append((0, t))
+    for _ in range(500 if not ctx.thorough else 12000):
+        n = rng.randrange(1, 12)
+        first = rng.choice([b'1', b'0', b'9', b'.', b'.5', b'5'])
+        t = first + b''.join(rng.choice(alpha) for _ in range(n))
+        ops.append((0, t))
+        if rng.random() < 0.3:
+            pre = rng.choice([b' ', b'x', b'+', b'a.', b'1 '])
+            ops.append((len(pre), pre + t))
+    lines = []
+    for s, t in ops:
+        op = f'ppn {s} {hexs(t)}'
+        lines.append(op)
+        r = ref_ppnumber(t, s)
+        expect[op] = 'ppn no' if r is None else f'ppn {r}'
+
+    def oracle(op, li):
+        if li.startswith('ppn err'):
+            return None                                        # a later token is not a token at all: no verdict about the first one
+        if li != expect[op]:
+            return {'what': 'tokenize() does not take the longest pp-number of C11 6.4.8 (identifier-nondigit = Latin letters)', 'expected': expect[op]}
+    run_both(ctx, corr, lines, 'pp_number_scan', lambda op, li: li not in ('ppn no',) and not li.startswith('ppn err'), oracle,
+             lenient={l for l in lines})
 
 # ------------------------------------------------------------------------------------------------ leg 3: escapes
 
@@ -483,7 +620,8 @@ def leg_readers(ctx, corr):
     for t in (b'"abc\n', b'"abc', b"'a", b"'", b'"\\', b'u"\xc3"', b'U"\x80"', b"L'\xe9'", b'"\\xg"', b'@'):
         ops.append('lit ' + t.hex())
     # numbers through the pp-number scan
-    for t in ('0x7fffffff+1', '1e+5f;', '0x1p-3L)', '1..2', '12ab;', '1e5e+3', '.5f', '5.', '0b101u,', '077777777777l ', '1E-2'):
+    for t in ('0x7fffffff+1', '1e+5f;', '0x1p-3L)', '1..2', '12ab;', '1e5e+3', '.5f', '5.', '0b101u,', '077777777777l ', '1E-2',
+              '0x0x1f;', '0X0X10u)', '0x0xg', '0xffffffffffffffffffu+1', '99999999999999999999 ', '1_0', '1$', '0x1e+1', '0xep+1'):
         ops.append('lit ' + t.encode().hex())
     run_both(ctx, corr, ops, 'tokenize_literal', lambda op, li: ' str ' in li or ' chr ' in li)
     # join_adjacent_string_literals
@@ -1040,7 +1178,8 @@ def run_corpus(ctx, corr):
 def correspond(ctx, corr):
     corr.rule = ('(a) in-process: every operation line (encode_utf8 / decode_utf8 / is_ident / UTF-16 units per code point: all 1-/2-/3-/4-byte '
                  'boundaries +-2, surrogate edges, every range-table endpoint +-1, seeded random scalars (thorough: all 0x110000 code points); '
-                 'convert_pp_int on threshold x base x suffix spellings; read_escaped_char forms; tokenize() on string/char literals of every '
+                 'convert_pp_int on threshold x base x suffix spellings, alone and inside a text; libc strtoul against its Lean model and its '
+                 'contract; the pp-number arm of tokenize() against the translated scan and the grammar of 6.4.8; read_escaped_char forms; tokenize() on string/char literals of every '
                  'prefix; join_adjacent_string_literals; BOM/CR/CRLF/splice/UCN texts; from_hex on all bytes, read_universal_char, '
                  'string_literal_end; tokenize_file() as a whole on files with 1-4 backslash-newlines inserted anywhere, whose first token '
                  'must be that of the unspliced file inside the region of C11_text_transparent) is run on the real code (harness, ASan/UBSan) and on the '
@@ -1049,7 +1188,7 @@ def correspond(ctx, corr):
                  'units, float bits) compared; types compared modulo long long = long.  non-trivial = multi-byte/multi-unit/typed/err results; '
                  'distinct = by operation text / literal spelling.')
     times = {}
-    for leg in (run_corpus, leg_codepoints, leg_int, leg_escape, leg_translated, leg_readers, leg_splice, e2e_int, e2e_float, e2e_chars, e2e_strings, e2e_text, e2e_ident):
+    for leg in (run_corpus, leg_codepoints, leg_int, leg_strtoul, leg_ppnumber, leg_escape, leg_translated, leg_readers, leg_splice, e2e_int, e2e_float, e2e_chars, e2e_strings, e2e_text, e2e_ident):
         t0 = time.time()
         leg(ctx, corr)
         times[leg.__name__] = round(time.time() - t0, 1)
@@ -1066,7 +1205,7 @@ def search(ctx, broken, corr):
     old = ctx.thorough
     ctx.thorough = True
     try:
-        for leg in (leg_translated, leg_escape, leg_int, leg_readers, leg_splice, leg_codepoints):
+        for leg in (leg_translated, leg_escape, leg_int, leg_strtoul, leg_ppnumber, leg_readers, leg_splice, leg_codepoints):
             if c2.violations:
                 break
             try:
@@ -1094,7 +1233,7 @@ def replay(ctx, corr, path):
     payload = json.load(open(path))
     op = payload.get('input')
     corr.evaluations = 1
-    if isinstance(op, str) and op.split(' ')[0] in ('enc', 'dec', 'id', 'u16', 'int', 'esc', 'lit', 'text', 'join', 'file', 'fhex', 'ruc', 'sle', 'rsl', 'rcl'):
+    if isinstance(op, str) and op.split(' ')[0] in ('enc', 'dec', 'id', 'u16', 'int', 'inta', 'stl', 'ppn', 'esc', 'lit', 'text', 'join', 'file', 'fhex', 'ruc', 'sle', 'rsl', 'rcl'):
         li = run_impl(ctx, op + '\n')
         lm = ctx.driver('literals', op + '\n').splitlines()
         print('replay:', op, '->', li[:1], 'model', lm[:1], 'expected', payload.get('expected'))
@@ -1112,7 +1251,11 @@ MANIFEST = {
     'level_text': 'Lean 4 theorems for all inputs.  Integer constants: the >>31/>>32/>>63 ladder of convert_pp_int equals the C11 6.4.4.1p5 '
                   'table for every base, suffix class and 64-bit value (C11_int_type; the region without a standard type is characterised '
                   'exactly, C11_int_type_region/_excluded); every suffix spelling is recognised (C11_int_suffix); for every spelling '
-                  'prefix+digits+suffix the token gets the value of its digits and that type (C11_int_value, C11_int_literal).  UTF-8: '
+                  'prefix+digits+suffix, standing anywhere in a text, the token gets the value of its digits and that type — stated about '
+                  'convert_pp_int as translated statement by statement from tokenize.c, for every strtoul satisfying a stated contract that '
+                  'the libc model satisfies (C11_int_value, C11_int_literal, C11_strtoul_contract, C11_translated_int).  pp-numbers: the '
+                  'translated scan of tokenize() takes exactly the longest prefix generated by the grammar of 6.4.8 with identifier-nondigit '
+                  'restricted to the Latin letters (C11_ppnumber_maximal; latitude `_`, `$`, bytes >= 0x80 witnessed in Findings).  UTF-8: '
                   'encode_utf8 writes the RFC 3629 bytes for every value < 2^21, decode_utf8 inverts it before any following text, decodes '
                   'the RFC bit layout and rejects misplaced/missing continuation bytes (C11_utf8_layout/_patterns/_roundtrip/_decode/_rejects). '
                   'UTF-16: units of RFC 2781, surrogates in range, recombine (C11_utf16).  Identifiers: is_ident1/is_ident2 equal Annex D for '
@@ -1128,16 +1271,19 @@ MANIFEST = {
                   'the unspliced phase-1 text with UCNs converted, for any number of splices (C11_text_lines); the literal token is read '
                   'from the first line alone (C11_text_first_line); a backslash-newline anywhere — also inside a universal character name — '
                   'and any number of them do not change the literal token (C11_text_transparent, C11_text_unspliced; the hypotheses are shown '
-                  'necessary by kernel-checked counterexamples reproduced on the real tokenizer).  The reader functions from_hex, '
+                  'necessary by kernel-checked counterexamples reproduced on the real tokenizer); the BOM test and the order of the phases '
+                  'are translated from clang\'s AST of tokenize_file and proved to be the composition phase12 of those theorems '
+                  '(C11_phase_order).  The reader functions from_hex, '
                   'read_escaped_char, read_universal_char, string_literal_end and the three in-place phase loops are translated from the C '
                   'source on every run and proved equal to the functions the theorems are about; for the phase loops this includes that no '
                   'store leaves the text (C11_translated_readers, C11_translated_phases).  The translated functions are run '
                   'against the compiled C (exhaustively over all 0x110000 code points in the thorough tier); the remaining hand models are tied by '
                   'in-process differential execution, including tokenize_file() as a whole on files with splices inserted anywhere; generated '
                   'programs are compiled by chibicc and gcc -std=c11 and compared.',
-    'level_note': 'Trusted: Lean kernel (axioms propext, Classical.choice, Quot.sound), the translator, the remaining hand models (reader '
-                  'loops, pp-number scan, join, BOM test / final newline / phase order: tied by testing and by pinning their source text), '
-                  'Spec (validated against gcc 12 and python reference codecs), libc strtoul/strtold/isxdigit.  '
+    'level_note': 'Trusted: Lean kernel (axioms propext, Classical.choice, Quot.sound), the translator, the remaining hand models (join / '
+                  'getStringKind, read_file final newline, order of the arms of tokenize(): tied by testing and by pinning their source '
+                  'text), Spec (validated against gcc 12 and python reference codecs), libc strtoul through a stated contract (model tested '
+                  'against the real libc), strtold, <ctype.h> in the C locale.  '
                   'Floating-constant values are compared with gcc bit for bit but not modelled.  No open statement.  Types are stated '
                   'modulo long long = long (chibicc has one 64-bit integer type per signedness; only _Generic/pointer compatibility can tell).',
     'technique': 'Lean 4 proof over translator-regenerated codecs/ladders/tables/reader functions/in-place phase loops (bit-vector facts lifted '
